@@ -344,7 +344,7 @@ Definition qstart (f : fault) (peer : bool) (w : world) : res :=
     match qstart_body f peer w2 with
     | Ret w3 => Ret w3
     | Raise e w3 =>
-        match vr w3 with
+        match vr w with
         | Current => Raise e w3
         | Fixed =>                                  (* reset the singleton; stop the context if it got active *)
             let w4 := set_reg w3 false in
